@@ -40,57 +40,114 @@ def insts(u):
 
 
 # ------------------------------------------------------------------------------------------------ a
+def _chain(n):
+    """(root node, [index nodes]) of a subscript chain x[i][j][k] (through operator[] calls)"""
+    n = n.strip()
+    idx = []
+    while n.k in ("CXXOperatorCallExpr", "ArraySubscriptExpr") and (n.k == "ArraySubscriptExpr" or n.op == "[]") and len(n.c) == 2:
+        idx.insert(0, n.c[1].strip())
+        n = n.c[0].strip()
+    return n, idx
+
+
+def _depth_of_range(k, suffix):
+    """IMG[..]..[..].get_min_index() -> (IMG[..]..[..], number of subscripts) or None"""
+    if not k.endswith(suffix):
+        return None
+    base = k[: -len(suffix)]
+    return base, _toplevel_subscripts(base)
+
+
+def axes_of(f, defs=None):
+    """neighbourhood axes of a function, found from the code: list of dicts(c=decl id of the voxel coordinate, d=decl id of the
+    offset, level, ok, detail, node) for every distinct subscript [c + d] where d is the variable of an enclosing counting loop"""
+    defs = defs or LocalDefs(f)
+    sub = {d: defs.single_def(d) for d in defs.decl}
+    loops = {}
+    for lp in f.walk():
+        if lp.k == "ForStmt":
+            d = describe(lp, names=False)
+            if d:
+                loops[d["d"]] = (d, lp)
+    out = []
+    seen = set()
+    for s in f.walk():
+        if not (s.k == "CXXOperatorCallExpr" and s.op == "[]" and len(s.c) == 2):
+            continue
+        idx = s.c[1].strip()
+        if not (idx.k == "BinaryOperator" and idx.op == "+"):
+            continue
+        a, b = idx.c[0].strip(), idx.c[1].strip()
+        if a.k != "DeclRefExpr" or b.k != "DeclRefExpr":
+            continue
+        # the offset is the operand that is the variable of an enclosing counting loop whose bounds are max()/min() forms
+        if b.get("d") not in loops and a.get("d") in loops:
+            a, b = b, a
+        cd, dd = a.get("d"), b.get("d")
+        if (cd, dd) in seen:
+            continue
+        seen.add((cd, dd))
+        pos = len(_chain(s.c[0])[1])  # number of subscripts before this one: the axis this subscript addresses
+        rec = dict(c=cd, d=dd, level=pos, ok=False, node=s, cname=a.get("n"), dname=b.get("n"))
+        if dd not in loops or not any(anc is loops[dd][1] for anc in s.ancestors()):
+            rec["detail"] = "%s is not the variable of an enclosing counting loop" % b.get("n")
+            out.append(rec)
+            continue
+        lp = loops[dd][0]
+        if lp["step"] != "1":
+            rec["detail"] = "offset loop of %s does not advance by 1" % b.get("n")
+            out.append(rec)
+            continue
+        ckey = key(a, False, sub)
+        lo = _resolve(f, defs, lp["node"].c[0], "init")
+        hi = _resolve_upper(f, defs, lp["node"].c[1])
+        # lo = max(W.get_min_index(), cmin - c) ; hi = min(W.get_max_index(), cmax - c)   (either argument order)
+        mlo = re.fullmatch(r"std::max\((.*)\.get_min_index\(\),\(- (.*) %s\)\)" % re.escape(ckey), lo or "") or _swapped(r"std::max", r"get_min_index", ckey, lo)
+        mhi = re.fullmatch(r"std::min\((.*)\.get_max_index\(\),\(- (.*) %s\)\)" % re.escape(ckey), hi or "") or _swapped(r"std::min", r"get_max_index", ckey, hi)
+        if mlo and mhi:
+            cmin, cmax = mlo.group(2), mhi.group(2)
+            # cmin/cmax are the index range of the image at this nesting level
+            rmin, rmax = _depth_of_range(cmin, ".get_min_index()"), _depth_of_range(cmax, ".get_max_index()")
+            same = rmin is not None and rmax is not None and rmin[0] == rmax[0]
+            level = rmin[1] if rmin else -1
+            wlevel = _toplevel_subscripts(mlo.group(1))
+            # the coordinate itself runs over that same range (its own loop), so c + d stays inside [cmin, cmax]
+            cl = loops.get(cd)
+            crange = cl is not None and key(cl[0]["node"].c[0].find(lambda m: m.k == "VarDecl" and m.c)[0].c[0].strip(), False, sub) == cmin if cl and cl[0]["node"].c[0].find(lambda m: m.k == "VarDecl" and m.c) else None
+            rec["ok"] = bool(same) and level == pos and mlo.group(1) == mhi.group(1) and wlevel == pos
+            rec["detail"] = "offset in [max(w_min, %s - c), min(w_max, %s - c)] for axis %d" % (cmin[-40:], cmax[-40:], pos)
+            if not rec["ok"]:
+                rec["detail"] = "bounds of %s along %s (axis %d) use weights extent %s / %s (axis %d) and image range %s / %s (axis %d): not the extents of that axis" % (b.get("n"), a.get("n"), pos, mlo.group(1)[-30:], mhi.group(1)[-30:], wlevel, cmin[-40:], cmax[-40:], level)
+        else:
+            rec["detail"] = "bounds of %s are %s .. %s, not max(w_min, c_min - c) .. min(w_max, c_max - c)" % (b.get("n"), lo, hi)
+        out.append(rec)
+    return out
+
+
+def _swapped(fn, acc, ckey, k):
+    m = re.fullmatch(r"%s\(\(- (.*) %s\),(.*)\.%s\(\)\)" % (fn, re.escape(ckey), acc), k or "")
+    if not m:
+        return None
+
+    class M:
+        def __init__(self, a, b):
+            self.g = (None, a, b)
+
+        def group(self, i):
+            return self.g[i]
+
+    return M(m.group(2), m.group(1))
+
+
 def rule_a(ctx, cls, fns):
     n = 0
     for f in fns:
-        subs = [m for m in f.walk() if m.k == "CXXOperatorCallExpr" and m.op == "[]" and len(m.c) == 2 and m.c[1].strip().k == "BinaryOperator" and m.c[1].strip().op == "+"]
-        if not subs:
-            continue
-        defs = LocalDefs(f)
-        seen = set()
-        for s in subs:
-            idx = s.c[1].strip()
-            a, b = idx.c[0].strip(), idx.c[1].strip()
-            if a.k != "DeclRefExpr" or b.k != "DeclRefExpr":
-                continue
-            cname, dname = a.get("n"), b.get("n")
-            if (cname, dname) in seen:
-                continue
-            seen.add((cname, dname))
-            # dc must be the variable of an enclosing counting loop
-            lp = None
-            for anc in s.ancestors():
-                if anc.k == "ForStmt":
-                    d = describe(anc)
-                    if d and d["d"] == b.get("d"):
-                        lp = d
-                        break
-            ok = False
-            det = "%s is not the variable of an enclosing counting loop" % dname
-            if lp is not None and lp["step"] == "1":
-                sub = {d: defs.single_def(d) for d in defs.decl}
-                ckey = key(a, True, sub)
-                lo = _resolve(f, defs, lp["node"].c[0], "init")
-                hi = _resolve_upper(f, defs, lp["node"].c[1])
-                # lo = max(W.get_min_index(), cmin - c) ; hi = min(W.get_max_index(), cmax - c)
-                mlo = re.fullmatch(r"std::max\((.*)\.get_min_index\(\),\(- (.*) %s\)\)" % re.escape(ckey), lo or "")
-                mhi = re.fullmatch(r"std::min\((.*)\.get_max_index\(\),\(- (.*) %s\)\)" % re.escape(ckey), hi or "")
-                if mlo and mhi:
-                    cmin, cmax = mlo.group(2), mhi.group(2)
-                    # cmin/cmax are the index range of the image at this nesting level
-                    okmin = re.fullmatch(r"(.+)\.get_min_index\(\)", cmin) is not None
-                    okmax = re.fullmatch(r"(.+)\.get_max_index\(\)", cmax) is not None
-                    same = okmin and okmax and cmin[: -len(".get_min_index()")] == cmax[: -len(".get_max_index()")]
-                    level = _toplevel_subscripts(cmin[: -len(".get_min_index()")]) if okmin else -1
-                    want_level = {"z": 0, "y": 1, "x": 2}.get(cname, -1)
-                    wlevel = _toplevel_subscripts(mlo.group(1))
-                    ok = bool(same) and level == want_level and mlo.group(1) == mhi.group(1) and wlevel == want_level
-                    det = "%s in [max(w_min, %s - %s), min(w_max, %s - %s)]" % (dname, cmin[-40:], cname, cmax[-40:], cname)
-                    if not ok:
-                        det = "bounds of %s along %s use weights extent %s / %s and image range %s / %s: not the extents of axis %s" % (dname, cname, mlo.group(1)[-30:], mhi.group(1)[-30:], cmin[-40:], cmax[-40:], cname)
-                else:
-                    det = "bounds of %s are %s .. %s, not max(w_min, c_min - %s) .. min(w_max, c_max - %s)" % (dname, lo, hi, cname, cname)
-            ctx.ob("C09.a-neighbours-inside-image", f.qn + "/" + str(len(f.params)), "%s+%s" % (cname, dname), ok, s.where(), det)
+        ax = axes_of(f)
+        cnt = {}
+        for r in ax:
+            k = cnt.get(r["level"], 0)
+            cnt[r["level"]] = k + 1
+            ctx.ob("C09.a-neighbours-inside-image", f.qn + "/" + str(len(f.params)), "axis%d#%d" % (r["level"], k), r["ok"], r["node"].where(), r["detail"])
             n += 1
     return n
 
@@ -112,82 +169,125 @@ def _resolve(f, defs, init_node, what):
     if not vd:
         return None
     sub = {d: defs.single_def(d) for d in defs.decl}
-    return key(vd[0].c[0].strip(), True, sub)
+    return key(vd[0].c[0].strip(), False, sub)
 
 
 def _resolve_upper(f, defs, cond):
     c = cond.strip()
     if c.k == "BinaryOperator" and c.op == "<=":
         sub = {d: defs.single_def(d) for d in defs.decl}
-        return key(c.c[1].strip(), True, sub)
+        return key(c.c[1].strip(), False, sub)
     return None
 
 
 # ------------------------------------------------------------------------------------------------ b / c
-def summand(ctx, f, acc_names, helpers, sgn):
-    """(sympy expression of the neighbourhood summand before kappa, kappa factor ok?, scale factor of the stored/returned result)"""
-    cfg = CFG(f)
-    # the accumulation statement  acc += current   (or output[z][y][x] += ...)
-    accs = [m for m in f.walk() if m.k in ("CompoundAssignOperator",) and m.op == "+=" and key(m.c[0], True) in acc_names and key(m.c[1].strip(), True) == "current"]
+def summand(ctx, f, helpers, sgn):
+    """the neighbourhood summand of compute_value / compute_gradient, found from the code: the local that is accumulated (`acc +=
+    local`) inside the innermost offset loop.  Returns its sympy expression before the kappa multiplication (voxel values X_c, X_nb,
+    weight w, by their subscripts), whether the kappa factor is right, the algebra object and the accumulator's declaration id."""
+    defs = LocalDefs(f)
+    sub = {d: defs.single_def(d) for d in defs.decl}
+    ax = [r for r in axes_of(f, defs) if r["ok"]]
+    bylevel = {}
+    for r in ax:
+        bylevel.setdefault(r["level"], r)
+    if sorted(bylevel) != [0, 1, 2]:
+        return None
+    cs = ["v%d" % bylevel[i]["c"] for i in range(3)]
+    ds = ["v%d" % bylevel[i]["d"] for i in range(3)]
+    centre = cs
+    neigh = ["(+ %s %s)" % (c, d) for c, d in zip(cs, ds)]
+    neigh2 = ["(+ %s %s)" % (d, c) for c, d in zip(cs, ds)]
+    offset_decls = {bylevel[i]["d"] for i in range(3)}
+
+    def inside_offset_loops(n):
+        k = set()
+        for a in n.ancestors():
+            if a.k == "ForStmt":
+                d = describe(a, names=False)
+                if d and d["d"] in offset_decls:
+                    k.add(d["d"])
+        return k == offset_decls
+
+    # the accumulation statement  acc += current   with current a local declared inside the offset loops
+    accs = []
+    for m in f.walk():
+        if m.k == "CompoundAssignOperator" and m.op == "+=":
+            r = m.c[1].strip()
+            l = m.c[0].strip()
+            if r.k == "DeclRefExpr" and r.get("dk") == "local" and l.k == "DeclRefExpr" and l.get("dk") == "local" and inside_offset_loops(m):
+                vd = defs.decl.get(r.get("d"))
+                if vd is not None and inside_offset_loops(vd):
+                    accs.append(m)
     if len(accs) != 1:
         return None
     acc = accs[0]
-    cur_decl = [m for m in f.walk() if m.k == "VarDecl" and m.get("n") == "current"]
-    if not cur_decl:
-        return None
+    cur = acc.c[1].strip().get("d")
+    curk = "v%d" % cur
+    cur_decl = defs.decl[cur]
 
     def subs_name(n):
-        k = key(n, True)
-        m = re.fullmatch(r"(\*?[\w.]+)\[(z|\(\+ z dz\))\]\[(y|\(\+ y dy\))\]\[(x|\(\+ x dx\))\]", k)
-        if m:
-            shifted = "+" in k
-            base = m.group(1)
-            if "kappa" in base:
-                return "K_nb" if shifted else "K_c"
-            return "X_nb" if shifted else "X_c"
-        if re.fullmatch(r"this\.weights\[dz\]\[dy\]\[dx\]", k):
+        root, idx = _chain(n)
+        if len(idx) != 3:
+            return None
+        ks = [key(i, False, sub) for i in idx]
+        rk = key(root, False, sub)
+        if ks == ds and rk == "this.weights":
             return "w"
+        shifted = None
+        if ks == centre:
+            shifted = False
+        elif all(k in (a, b) for k, a, b in zip(ks, neigh, neigh2)):
+            shifted = True
+        if shifted is None:
+            return None
+        if "kappa" in rk:
+            return "K_nb" if shifted else "K_c"
+        if "DiscretisedDensity" in root.type or "VoxelsOnCartesianGrid" in root.type or root.k == "DeclRefExpr":
+            return "X_nb" if shifted else "X_c"
         return None
 
-    alg = Algebra(f, names=True, inline=True)
+    alg = Algebra(f, names=False, inline=True)
     alg.helpers = helpers
     alg.abs_sign = sgn
     alg.subscript_symbols = subs_name
-    # value of `current` before the kappa multiplication: its initialiser, or its last plain assignment (RDP value has an if/else)
-    inits = []
-    for cd in cur_decl:
-        if cd.c:
-            inits.append(cd.c[0])
-    assigns = [m for m in f.walk() if m.k == "BinaryOperator" and m.op == "=" and key(m.c[0], True) == "current"]
+    # value of the summand before the kappa multiplication: its initialiser, or its last plain assignment (RDP value has an if/else)
+    inits = [cur_decl.c[0]] if cur_decl.c else []
+    assigns = [m for m in f.walk() if m.k == "BinaryOperator" and m.op == "=" and key(m.c[0]) == curk]
     exprs = [alg.expr(e) for e in inits] + [alg.expr(m.c[1]) for m in assigns]
     exprs = [e for e in exprs if e.free_symbols]
     if not exprs:
         return None
     E = exprs[-1] if len(exprs) > 1 else exprs[0]
-    # kappa: current *= K_c * K_nb under do_kappa
-    kap = [m for m in f.walk() if m.k == "CompoundAssignOperator" and m.op == "*=" and key(m.c[0], True) == "current"]
+    # kappa: current *= K_c * K_nb under a test that the kappa image exists
+    kap = [m for m in f.walk() if m.k == "CompoundAssignOperator" and m.op == "*=" and key(m.c[0]) == curk]
     kap_ok = False
     for m in kap:
         e = sympy.expand(alg.expr(m.c[1]))
         guard = [a for a in m.ancestors() if a.k == "IfStmt"]
-        if e == alg.sym("K_c") * alg.sym("K_nb") and guard and key(guard[0].c[0], True) == "do_kappa":
+        gk = key(guard[0].c[0], False, sub) if guard else ""
+        if e == alg.sym("K_c") * alg.sym("K_nb") and guard and "kappa_ptr" in gk and "is_null_ptr" in gk and gk.startswith("(!"):
             kap_ok = True
-    return {"E": E, "kappa_ok": kap_ok, "alg": alg, "acc": acc}
+    return {"E": E, "kappa_ok": kap_ok, "alg": alg, "acc": acc, "accd": acc.c[0].strip().get("d")}
 
 
-def scale_of(f, alg_syms, accname):
+def scale_of(f, accd):
     """multiplier applied to the accumulated sum: `return acc * pf [/ 2]`  or  `out[z][y][x] = acc * pf`"""
-    alg = Algebra(f, names=True, inline=False)
+    alg = Algebra(f, names=False, inline=False)
     cands = []
+
+    def mentions(n):
+        return any(m.k == "DeclRefExpr" and m.get("d") == accd for m in n.walk())
+
     for m in f.walk():
-        if m.k == "ReturnStmt" and m.c and accname in key(m.c[0], True):
+        if m.k == "ReturnStmt" and m.c and mentions(m.c[0]):
             cands.append(m.c[0])
-        if m.k in ("BinaryOperator", "CXXOperatorCallExpr") and m.op == "=" and len(m.c) == 2 and accname in key(m.c[1], True) and "[z][y][x]" in key(m.c[0], True):
+        if m.k in ("BinaryOperator", "CXXOperatorCallExpr") and m.op == "=" and len(m.c) == 2 and mentions(m.c[1]) and len(_chain(m.c[0])[1]) == 3:
             cands.append(m.c[1])
     if len(cands) != 1:
         return None
     e = sympy.expand(alg.expr(cands[0]))
-    a = alg.sym(accname)
+    a = alg.sym("v%d" % accd)
     c = sympy.expand(sympy.diff(e, a))
     if sympy.expand(e - c * a) != 0:
         return None
@@ -209,15 +309,15 @@ def rule_bc(ctx, cls, fns):
     if not cv or not cg:
         ctx.fail_broken("%s: compute_value / compute_gradient not found" % cls)
         return
-    V = summand(ctx, cv[0], ("result",), helpers, sgn)
-    G = summand(ctx, cg[0], ("gradient",), helpers, sgn)
+    V = summand(ctx, cv[0], helpers, sgn)
+    G = summand(ctx, cg[0], helpers, sgn)
     if V is None or G is None:
-        ctx.unrec("stir::%s" % cls, "neighbourhood summand `current` / accumulation not recognised in compute_value or compute_gradient")
+        ctx.unrec("stir::%s" % cls, "neighbourhood summand / accumulation not recognised in compute_value or compute_gradient")
         return
     # logcosh helper: log(cosh(.)) (even function; the class's own large-argument approximation is a numerical device)
     lc = sympy.Function("logcosh")
-    sv = scale_of(cv[0], None, "result")
-    sg = scale_of(cg[0], None, "gradient")
+    sv = scale_of(cv[0], V["accd"])
+    sg = scale_of(cg[0], G["accd"])
     pfs = [s for s in (sv.free_symbols if sv is not None else set()) if "penalisation_factor" in s.name]
     for what, sc, f in (("value", sv, cv[0]), ("gradient", sg, cg[0])):
         ok = sc is not None and len([s for s in sc.free_symbols if "penalisation_factor" in s.name]) == 1 and sympy.degree(sc, [s for s in sc.free_symbols if "penalisation_factor" in s.name][0]) == 1
@@ -276,7 +376,8 @@ def rule_bc(ctx, cls, fns):
         ok = True
         det = []
         for sval in (1, -1):
-            a = Algebra(h, names=True)
+            a = Algebra(h, names=False)
+            a.syms = G["alg"].syms
             a.helpers = helpers
             a.abs_sign = sympy.Integer(sval)
             a.bind = {h.params[0]["d"]: x, h.params[1]["d"]: y}
@@ -296,7 +397,8 @@ def rule_bc(ctx, cls, fns):
             if name == "derivative_11":
                 sw = e.subs({x: y, y: x}, simultaneous=True)
                 # exchanging x and y flips the sign of x-y
-                a2 = Algebra(h, names=True)
+                a2 = Algebra(h, names=False)
+                a2.syms = G["alg"].syms
                 a2.helpers = helpers
                 a2.abs_sign = sympy.Integer(-sval)
                 a2.bind = {h.params[0]["d"]: y, h.params[1]["d"]: x}
